@@ -975,15 +975,20 @@ impl Headers {
             if lines.len() < survivors.len() || lines[..survivors.len()] != survivors[..] {
                 r.oracle.push(("response-edit-removed-unnamed".into(), format!("backend sent {} client gets {}", show_hl(&input), show_hl(&lines))));
             }
-            for (k, v) in lines.iter().skip(survivors.len()) {
-                if !edits.iter().any(|(ek, ev, _)| ek == k && ev == v) {
-                    r.oracle.push(("response-edit-undeclared-addition".into(), format!("`{}: {}` is not an operator edit", lossy(k), lossy(v))));
-                }
-            }
-            for (ek, _, m) in &edits {
-                if *m == 'i' && input.iter().any(|(k, _)| eq_nc(k, ek)) && lines.iter().filter(|(k, _)| eq_nc(k, ek)).count() != input.iter().filter(|(k, _)| eq_nc(k, ek) && !dropped(k)).count() {
-                    r.oracle.push(("response-edit-set-if-absent".into(), format!("`{}` was present but a SetIfAbsent edit changed it", lossy(ek))));
-                }
+            // the documented semantics, re-derived here: Append (non-empty) and Set always insert,
+            // SetIfAbsent inserts only when the backend's response had no header of that name
+            let expect: Vec<Hdr> = edits
+                .iter()
+                .filter(|(ek, ev, m)| match m {
+                    'a' => !ev.is_empty(),
+                    'i' => !input.iter().any(|(k, _)| eq_nc(k, ek)),
+                    _ => true,
+                })
+                .map(|(k, v, _)| (k.clone(), v.clone()))
+                .collect();
+            let added: Vec<Hdr> = lines.iter().skip(survivors.len()).cloned().collect();
+            if added != expect {
+                r.oracle.push(("response-edit-additions".into(), format!("edits should add {} but added {}", show_hl(&expect), show_hl(&added))));
             }
         }
         let fields = lines.iter().map(|(k, v)| format!("{}:{}", hex(k), hex(v))).collect::<Vec<_>>();
